@@ -22,11 +22,13 @@ func (r *afterRunner) Do(op []string) string {
 	panic("harness: bad op " + op[0])
 }
 
-// the callback returns 100 + (number of runs so far), so every run has a distinct result
+// the callback returns base + (number of runs so far), so every run has a distinct result; base -1 makes
+// the FIRST result the zero value of the result type
 type beforeRunner struct {
 	n    int
 	c    *cache.Cache[string, int]
 	runs int
+	base int
 }
 
 func (r *beforeRunner) Close() { r.c.VerifStopCleanup() }
@@ -35,7 +37,7 @@ func (r *beforeRunner) Do(op []string) string {
 	switch op[0] {
 	case "call":
 		before := r.runs
-		ret := gogu.Before(&r.n, r.c, func() int { r.runs++; return 100 + r.runs })
+		ret := gogu.Before(&r.n, r.c, func() int { r.runs++; return r.base + r.runs })
 		return itoa(r.runs-before) + " " + itoa(ret)
 	}
 	panic("harness: bad op " + op[0])
@@ -44,6 +46,7 @@ func (r *beforeRunner) Do(op []string) string {
 type onceRunner struct {
 	c    *cache.Cache[string, int]
 	runs int
+	base int
 }
 
 func (r *onceRunner) Close() { r.c.VerifStopCleanup() }
@@ -52,7 +55,7 @@ func (r *onceRunner) Do(op []string) string {
 	switch op[0] {
 	case "call":
 		before := r.runs
-		ret := gogu.Once[string, int, int](r.c, func() int { r.runs++; return 100 + r.runs })
+		ret := gogu.Once[string, int, int](r.c, func() int { r.runs++; return r.base + r.runs })
 		return itoa(r.runs-before) + " " + itoa(ret)
 	}
 	panic("harness: bad op " + op[0])
@@ -81,12 +84,17 @@ func (r *retryRunner) Do(op []string) string {
 		})
 		return itoa(attempts) + " " + errs(err) + " " + itoa(calls)
 	case "retrydelay":
+		// retrydelay <n> <delay ms> <script> [<attempt durations ms>]: attempt i takes durs[i] ms of (virtual) time
 		n := atoi(op[1])
 		d := time.Duration(atoi(op[2])) * time.Millisecond
 		script := parseInts(op[3])
+		var durs []int
+		if len(op) > 4 {
+			durs = parseInts(op[4])
+		}
 		calls := 0
 		start := time.Now()
-		var stamps []int
+		var stamps, ends []int
 		_, attempts, err := gogu.RType[int]{Input: 7}.RetryWithDelay(n, d, func(el time.Duration, in int) error {
 			i := calls
 			calls++
@@ -94,12 +102,16 @@ func (r *retryRunner) Do(op []string) string {
 				panic(hangSignal{})
 			}
 			stamps = append(stamps, int(time.Since(start)/time.Millisecond))
+			if i < len(durs) && durs[i] > 0 {
+				time.Sleep(time.Duration(durs[i]) * time.Millisecond)
+			}
+			ends = append(ends, int(time.Since(start)/time.Millisecond))
 			if i < len(script) && script[i] == 0 {
 				return nil
 			}
 			return errScript
 		})
-		return itoa(attempts) + " " + errs(err) + " " + itoa(calls) + " " + ints(stamps)
+		return itoa(attempts) + " " + errs(err) + " " + itoa(calls) + " " + ints(stamps) + " " + ints(ends)
 	}
 	panic("harness: bad op " + op[0])
 }
@@ -110,10 +122,10 @@ func init() {
 	}
 	kinds["after"] = func(p []string) Runner { return &afterRunner{n: atoi(p[0])} }
 	kinds["before"] = func(p []string) Runner {
-		return &beforeRunner{n: atoi(p[0]), c: cache.New[string, int](dur(atoi(p[1])), 0)}
+		return &beforeRunner{n: atoi(p[0]), c: cache.New[string, int](dur(atoi(p[1])), 0), base: atoi(p[2])}
 	}
 	kinds["once"] = func(p []string) Runner {
-		return &onceRunner{c: cache.New[string, int](dur(atoi(p[0])), 0)}
+		return &onceRunner{c: cache.New[string, int](dur(atoi(p[0])), 0), base: atoi(p[1])}
 	}
 	kinds["retry"] = func(p []string) Runner { return &retryRunner{} }
 	gens["C18"] = genC18
@@ -134,7 +146,8 @@ func genC18(g *Gen) {
 				ops[i] = "call"
 			}
 			g.Emit("after", []string{itoa(n)}, ops)
-			g.Emit("before", []string{itoa(n), "-1"}, ops)
+			g.Emit("before", []string{itoa(n), "-1", "100"}, ops)
+			g.Emit("before", []string{itoa(n), "-1", "-1"}, ops) // first result = zero value
 		}
 	}
 	// Once: all call/sleep scripts (expiry 10ms; sleeps 4 / 7 / 11 ms) up to length 6/7
@@ -147,7 +160,10 @@ func genC18(g *Gen) {
 			if !g.Mine() {
 				return
 			}
-			g.Emit("once", []string{exp}, append([]string{}, s...))
+			g.Emit("once", []string{exp, "100"}, append([]string{}, s...))
+			if len(s) <= 5 {
+				g.Emit("once", []string{exp, "-1"}, append([]string{}, s...)) // first result = zero value
+			}
 		})
 	}
 	// Retry: every n, every success/failure script up to maxScript
@@ -169,5 +185,15 @@ func genC18(g *Gen) {
 			}
 		}
 		g.Emit("retry", nil, ops2)
+		// attempts that take (virtual) time themselves: shorter than, equal to and longer than the delay
+		var ops3 []string
+		for i, sc := range scripts {
+			if len(sc) <= 4 {
+				for _, du := range [][]int{{7, 0, 0, 0}, {0, 12, 0, 0}, {3, 5, 9, 0}, {5, 5, 5, 5}} {
+					ops3 = append(ops3, "retrydelay "+itoa(n)+" "+itoa(3+i%5)+" "+ints(sc)+" "+ints(du))
+				}
+			}
+		}
+		g.Emit("retry", nil, ops3)
 	}
 }
